@@ -1,5 +1,8 @@
 """C08 — prediction is a pure, row-wise arg-max.  Oracle on the implementation:
 permutation / batching / repetition relations, snapshot before == after,
+hosts whose inner module was changed behind their back after training (module trained on unlabelled rows or re-fitted,
+a shallow copy of the host / a second host around the same module re-fitted on more classes): a label is the map of
+the arg-max and a trained label, or the call is refused,
 recomputed arg-max from the public activation function (also on rows a hair away from a decision boundary and on
 runs of consecutive floats across it: exact ties and one-ulp leads), range of outputs.  Tie:
 Lean `predict` (incl. the SimpleARTMAP map) end-to-end on exact kernels."""
@@ -173,6 +176,7 @@ def run(ctx):
     tiny_covariance(ctx)
     near_boundary(ctx)
     ulp_near_ties(ctx)
+    behind_the_back(ctx)
     e2e.base_histories(ctx, "C08", ctx.scale(150, 3000), ctx.scale(20, 80), fields=("labels",))
     e2e.smap_histories(ctx, "C08", ctx.scale(100, 2000), ctx.scale(16, 60))
 
@@ -643,3 +647,201 @@ def ulp_near_ties(ctx):
                 break
         cov.hit(f"ulp-scan:{'bare' if host == 'bare' else 'hosted:' + host}:{cls}")
         cov.case(("ulp", spec, rep["X"], lo), tight)
+
+
+# ---------------------------------------------------------------------------------------------------------------
+# hosts whose inner module changed behind their back
+
+BB_HOSTS = ["SimpleARTMAP", "ARTMAP", "SimpleARTMAP", "DeepARTMAP-sup", "SMART", "DualVigilanceART", "ARTMAP",
+            "DeepARTMAP-unsup"]
+BB_WAYS = ["module-partial_fit-unlabelled", "shallow-copy-refitted", "second-host-same-module", "module-partial_fit-unlabelled",
+           "module-refitted-unlabelled"]          # 8 hosts x 5 ways: all pairs in 40 cases
+
+
+def _bb_sharpen(r, sp):
+    """vigilance of the module that will be touched, on the side that founds a new category for a new row (otherwise the
+    module only ever owns the categories its host mapped)"""
+    cls = sp["cls"]
+    if cls == "GaussianART":
+        sp["rho"] = r.choice([0.75, 0.9375, 1.0])
+    elif cls == "BayesianART":
+        d = len(sp["cov_init"])
+        sp["rho"] = r.choice([2.0 ** -12, 2.0 ** -6]) ** d
+    elif cls == "QuadraticNeuronART":
+        sp["rho"] = r.choice([0.75, 0.9])
+    elif cls == "ART1":
+        sp["rho"] = r.choice([0.75, 1.0])
+    else:
+        sp["rho"] = r.choice([0.75, 0.875, 1.0])
+
+
+def _bb_parts(name, est):
+    """(the estimator that owns the label map consulted last by predict, the module whose arg-max it maps)"""
+    if name in ("SimpleARTMAP", "ARTMAP"):
+        return est, est.module_a
+    if name == "DualVigilanceART":
+        return est, est.base_module
+    return est.layers[-1], est.layers[-1].module_a      # DeepARTMAP / SMART: the last layer
+
+
+def _bb_module_rows(name, rows):
+    """the array the touched module is trained on / queried with"""
+    return rows.arrs["Xs"][-1] if "Xs" in rows.arrs else rows.arrs["X"]
+
+
+def behind_the_back(ctx):
+    """A trained host (SimpleARTMAP, ARTMAP, DeepARTMAP, SMART, DualVigilanceART) carries the arg-max of its inner module
+    through ITS OWN label map.  The inner module is a public, fully functional estimator and can change after the host
+    was trained without the host taking part:
+      * `host.module_a.partial_fit(unlabelled rows)` / `.fit(unlabelled rows)` (the module keeps adapting),
+      * `copy.copy(host)` (shares the module) is re-fitted on more rows and more classes,
+      * a second host is built around the same module object and fitted on more rows and more classes.
+    The module may then own categories for which the host has no map entry.  The property still speaks about the first
+    host's predict: every label it RETURNS is the host's map of the oldest category of maximal activation (activation
+    = the module's public `category_choice` on the module's current weights) and is one of the labels the host was
+    trained with.  A host that cannot label a row may refuse (any exception is accepted and recorded); what it may not
+    do is hand out a label that is not the map of the arg-max / was never trained.  Rows are predicted one at a time
+    (a refusal for one row does not hide the others) and as one batch (which must agree with the single rows); the
+    module's weights and the host's map are bit-identical after predict."""
+    import copy
+    cov = ctx.cov
+    for i in range(ctx.scale(80, 1600)):
+        r = gen.rng_for(ctx.seed, "C08-behind", i)
+        name = BB_HOSTS[i % len(BB_HOSTS)]
+        way = BB_WAYS[i % len(BB_WAYS)]
+        fam, rows = families.build(r, name, r.randint(2, ctx.scale(10, 30)), floats=r.random() < 0.3)
+        if fam.fresh is None:
+            continue
+        # the touched module's vigilance
+        sp = fam.spec
+        if name in ("SimpleARTMAP", "ARTMAP"):
+            _bb_sharpen(r, sp["module_a"])
+        elif name == "DualVigilanceART":
+            if r.random() < 0.7 and sp["base_module"]["cls"] != "GaussianART":
+                _bb_sharpen(r, sp["base_module"])
+                if not sp["base_module"]["rho"] > sp["rho_lower_bound"]:       # the constructor's own requirement
+                    sp["base_module"]["rho"] = 1.0 if sp["base_module"]["cls"] != "QuadraticNeuronART" else 0.9
+        elif name == "SMART":
+            sp["rho_values"][-1] = max(sp["rho_values"][-1], r.choice([0.875, 1.0]))
+        else:
+            _bb_sharpen(r, sp["modules"][-1])
+        n = len(rows)
+        more = fam.fresh(r, r.randint(1, 6), floats2=r.random() < 0.3)
+        if "y" in more.arrs and name in ("SimpleARTMAP", "DeepARTMAP-sup"):
+            top = int(np.max(rows.arrs["y"]))
+            more.arrs["y"] = np.array([top + 1 + r.randrange(2) for _ in range(len(more))], dtype=int)   # classes the host never saw
+        desc = dict(fam.describe(), rows=rows.tolist(), way=way, more_rows=more.tolist())
+        try:
+            est = fam.make()
+            if fam.has_pfit and r.random() < 0.3 and n >= 2:
+                k = r.randint(1, n - 1)
+                fam.pfit(est, rows.sl(0, k))
+                fam.pfit(est, rows.sl(k, n))
+                desc["batches"] = [k]
+            else:
+                fam.fit(est, rows)
+            host, mod = _bb_parts(name, est)
+            trained = set(int(v) for v in host.map.values())        # every trained label is the image of some category
+            n_before = len(mod.W)
+        except Exception as e:
+            cov.hit(f"behind-the-back:train-raised:{name}:{exc_enum(e)}")
+            continue
+        # --- the change behind the host's back
+        try:
+            with quiet():
+                if way == "module-partial_fit-unlabelled":
+                    mod.partial_fit(_bb_module_rows(name, more))
+                elif way == "module-refitted-unlabelled":
+                    mod.fit(np.concatenate([_bb_module_rows(name, rows), _bb_module_rows(name, more)]))
+                elif way == "second-host-same-module" and name in ("SimpleARTMAP", "ARTMAP", "DualVigilanceART"):
+                    if name == "SimpleARTMAP":
+                        other = type(est)(mod)
+                    elif name == "ARTMAP":
+                        other = type(est)(mod, copy.deepcopy(est.module_b))
+                    else:
+                        other = type(est)(mod, rho_lower_bound=est.rho_lower_bound)
+                    fam.fit(other, rows.concat(more))
+                else:
+                    way = "shallow-copy-refitted"
+                    desc["way"] = way
+                    other = copy.copy(est)
+                    fam.fit(other, rows.concat(more))
+        except Exception as e:
+            cov.hit(f"behind-the-back:change-raised:{name}:{way}:{exc_enum(e)}")
+            continue
+        host2, mod2 = _bb_parts(name, est)
+        if host2 is not host or mod2 is not mod:
+            cov.hit(f"behind-the-back:host-rebuilt:{name}:{way}")      # not the situation: the first host itself changed
+            continue
+        if set(int(v) for v in host.map.values()) != trained:
+            cov.hit(f"behind-the-back:map-changed:{name}:{way}")       # the host's own map took part: another situation
+            continue
+        unmapped = [c for c in range(len(mod.W)) if c not in host.map]
+        cov.hit(f"behind-the-back:{name}:{way}")
+        cov.hit("behind-the-back:module-owns-unmapped-categories" if unmapped else "behind-the-back:every-category-mapped")
+        if len(mod.W) < n_before:
+            cov.hit("behind-the-back:module-lost-categories")
+        if len(mod.W) == 0:
+            cov.case(("behind", name, way, fam.spec, desc["rows"], desc["more_rows"]), False)
+            continue
+        # --- query: the rows the module met behind the host's back, training rows, rows nobody saw
+        q = more.concat(rows.take(np.array([r.randrange(n) for _ in range(r.randint(1, 4))])))
+        q = q.concat(fam.fresh(r, r.randint(1, 3), floats2=r.random() < 0.3))
+        nq = len(q)
+        Xq = np.asarray(_bb_module_rows(name, q), dtype=float)
+        rep = dict(desc, query=q.tolist(), trained_labels=sorted(trained), host_map={int(a): int(b) for a, b in host.map.items()})
+        W0 = [np.array(w, dtype=float).copy() for w in mod.W]
+        map0 = {int(a): int(b) for a, b in host.map.items()}
+        with quiet():
+            Ts = [_nb_acts(mod, x) for x in Xq]
+        singles, refused = [], 0
+        for k in range(nq):
+            try:
+                singles.append(as_cols(fam.predict(est, q.sl(k, k + 1)))[0])
+            except Exception as e:
+                singles.append(None)
+                refused += 1
+                cov.hit(f"behind-the-back:predict-refused:{name}:{exc_enum(e)}")
+        try:
+            batch = as_cols(fam.predict(est, q))
+        except Exception as e:
+            batch = None
+        if len(W0) != len(mod.W) or not all(np.array_equal(u, np.asarray(v, dtype=float), equal_nan=True) for u, v in zip(W0, mod.W)) \
+                or {int(a): int(b) for a, b in host.map.items()} != map0:
+            ctx.issue("violation", f"{name}.predict:mutates-model:behind-the-back", "module weights / label map changed during predict", rep)
+        if batch is None and refused == 0:
+            ctx.issue("violation", f"{name}.predict:batch-dependent:behind-the-back",
+                      "the batch is refused although every one of its rows is labelled when asked alone", rep)
+        elif batch is not None and (refused or not np.array_equal(batch, np.vstack(singles))):
+            ctx.issue("violation", f"{name}.predict:batch-dependent:behind-the-back",
+                      f"batch {batch.tolist()} vs row by row {[None if t is None else t.tolist() for t in singles]}", rep)
+        hit_unmapped = False
+        for k in range(nq):
+            best = _nb_first_argmax(Ts[k])
+            if best is None:
+                cov.hit("behind-the-back:nan-activation")
+                continue
+            if best not in map0:
+                hit_unmapped = True
+                cov.hit("behind-the-back:row-won-by-unmapped-category")
+            if singles[k] is None:
+                continue
+            # DeepARTMAP / SMART: last column = the module's category, the one before = the last layer's map of it
+            deep = name.startswith("DeepARTMAP") or name == "SMART"
+            label = int(singles[k][-2]) if deep else int(singles[k][0])
+            what = None
+            if deep and int(singles[k][-1]) != best:
+                what = ("not-first-argmax", f"A-side category {int(singles[k][-1])}, the oldest category of maximal activation is {best}")
+            elif best not in map0:
+                what = ("label-for-unmapped-category",
+                        f"predicted {label} although the winning category {best} has no entry in the host's label map {map0}")
+            elif int(map0[best]) != label:
+                what = ("not-map-of-argmax", f"predicted {label}, the host maps the winning category {best} to {map0[best]}")
+            elif label not in trained:
+                what = ("class-never-trained", f"predicted {label}, the host was trained with {sorted(trained)}")
+            if what is not None:
+                ctx.issue("violation", f"{name}.predict:{what[0]}:behind-the-back",
+                          f"after {way}: row {k}: {what[1]} (labels the host was trained with: {sorted(trained)}; "
+                          f"activations {Ts[k]})", dict(rep, row=k))
+                break
+        cov.case(("behind", name, way, fam.spec, desc["rows"], desc["more_rows"]), hit_unmapped)
